@@ -518,8 +518,27 @@ def oracle(U, line, before, exc):
         d, s = int(t[1]), int(t[2])
         db, sb = before[d], before[s]
         rm, ex = t[4] == '1', t[5] == '1'
-        if not rm or d == s or not sb['nonneg']: return None
+        if d == s or not sb['nonneg']: return None
         spk = sb['pkg']
+        if t[3] == '*' and not ex:
+            # a whole-stream copy (with or without removal): the destination holds exactly the source's flows, i.e. also
+            # nothing of what it held before of chemicals the source's package does not list
+            other_ = db['pkg'] is not spk
+            cfgw = 'S<-' + ('M' if sb['multi'] else 'S') + ('.other-package' if other_ else '') + '.whole-stream'
+            U.tags.add(f'in:copy:{cfgw}' + ('' if rm else '.keep'))
+            if exc is not None:
+                return raised(cfgw) if set(spk) <= set(db['pkg']) else None
+            nd0 = now(d)
+            for c in set(db['pkg']) | set(spk):
+                if nd0.get(c, 0) != sb['tot'].get(c, Fraction(0)):
+                    return (f'copy:{cfgw}:destination-not-the-source', f'after `{line}` chemical {NAMES[c]}: the source held '
+                            f'{sb["tot"].get(c, 0)}, the destination (holding {db["tot"].get(c, 0)} before) now holds {nd0.get(c, 0)}')
+            if not rm:
+                ns0 = now(s)
+                if ns0 != sb['tot']:
+                    return (f'copy:{cfgw}:source-changed', f'`{line}` (remove=False) changed the source')
+                return None
+        if not rm: return None
         if t[3] == '*': sel = list(spk); form = 'all'
         elif t[3].startswith('='): sel = [int(t[3][1:])]; form = 'str'
         else: sel = parse_ids(t[3]); form = 'seq'
@@ -630,6 +649,12 @@ def oracle_copy_multi(U, line, t, before, exc, raised):
         inq = same_chem and ok_phases and (ph == '*' or resolvable(dph, ph))
         return raised(cfg) if inq else None
     nd, ns = U.totals(U.streams[d]), U.totals(U.streams[s])
+    if form == 'all' and not ex and ph == '*':
+        # whole-stream cut and paste: the destination holds exactly the source's flows, whatever it held before
+        for c in set(db['pkg']) | set(spk):
+            if nd.get(c, 0) != sb['tot'].get(c, Fraction(0)):
+                return (f'copy:{cfg}:destination-not-the-source', f'after `{line}` chemical {NAMES[c]}: the source held '
+                        f'{sb["tot"].get(c, 0)}, the destination (holding {db["tot"].get(c, 0)} before) now holds {nd.get(c, 0)}')
     for c in spk:
         got = nd.get(c, 0)
         if ns.get(c, 0) != sb['tot'][c] - moved[c] or got < moved[c] or (db['empty'] and got != moved[c]):
@@ -679,8 +704,9 @@ def run_ops(ops):
                 if is_numerics(e):
                     # the enthalpy solve gave up: the case ends here without a verdict on this line
                     U.tags.add('eb:numerics-skip')
-                    if before is not None and all(b['nonneg'] for b in before):
+                    if before is not None and all(b['nonneg'] for b in before) and ' vle' not in line:
                         # all flows non-negative, every stream at 298.15 K: the enthalpy solve has no reason to give up
+                        # (a flash that does not converge is C03 / C04's business, not a C01 failure)
                         failures.append({'signature': 'eb:enthalpy-solve-failed', 'op_index': i,
                                          'what': f'`{line}` (all flows non-negative) raised {type(e).__name__} out of the '
                                                  f'thermodynamic code: {str(e)[:100]}; the case is not judged from here on'})
@@ -1063,7 +1089,11 @@ def pkg_lines(rng, pkgs):
     flags = [''] * len(pkgs)
     distinct = lambda k: all(pkgs[k] != pkgs[j] for j in range(len(pkgs)) if j != k)
     if len(pkgs) > 3 and len(pkgs[3]) >= 2 and distinct(3) and rng.random() < 0.8: flags[3] = ' alt'
-    if distinct(2) and rng.random() < 0.3: flags[2] = ' swap'
+    # the swapped IDs of package 2 must not spell the ID tuple of another package: MultiStream.copy_flow takes equal ID
+    # tuples for equal chemicals
+    swapped = [NAMES[(c + 3) % 6] for c in pkgs[2]]
+    if distinct(2) and all(swapped != [NAMES[c] for c in pkgs[j]] for j in range(len(pkgs)) if j != 2) \
+            and rng.random() < 0.3: flags[2] = ' swap'
     return ['pkg ' + ','.join(map(str, p)) + f for p, f in zip(pkgs, flags)]
 
 
